@@ -4,9 +4,9 @@ and records the outcome in seeded/<id>/meta.json. Applies each patch to /repo an
 import json, os, subprocess, sys, re
 ROOT = "/verif"
 only = sys.argv[1:]
-EXTRA = {"C16-s2": ["C13"], "C09-s2": ["C08"], "C04-s10": ["C11"], "C20-s8": ["C11"], "C07-s7": ["C10", "C11"]}
+EXTRA = {"C16-s2": ["C13"], "C09-s2": ["C08"], "C04-s10": ["C11"], "C20-s8": ["C11"], "C07-s7": ["C10", "C11"], "C20-s7": ["C03"]}
 # Seeds that are out of reach of the quick tier by construction (recorded in their meta.json; not overwritten here).
-KEEP_META = {"C07-s8", "C10-s8", "C16-s10", "C20-s7", "C02-s10", "C18-s9"}
+KEEP_META = {"C07-s8", "C10-s8", "C16-s10", "C02-s10", "C18-s9"}
 def sh(cmd, **kw): return subprocess.run(cmd, shell=True, capture_output=True, text=True, **kw)
 assert sh("git -C /repo diff --quiet").returncode == 0, "/repo dirty"
 results = {}
